@@ -66,7 +66,7 @@ var rdfPlainIRIs = []string{"ex:p", "http://example.org/a", "urn:x:1", "http://e
 var rdfBlankLabels = []string{"b0", "b1", "x", "a.b", "x-y", "0", "_u", "é", "a:b", "b·c", "c14n0", "a", "z", "g", "B_1.2-3", "a_:b"}
 
 var rdfLitAtoms = []string{"a", "b", "Z", "0", " ", "é", "😀", "\t", `\t`, `\n`, `\r`, `\"`, `\\`, `\b`, `\f`, `\'`, rdfU + "00e9", rdfU + "0041", rdfU + "000A",
-	`\U0001F600`, rdfU + "9fa5", rdfU + "AC00", rdfU + "fffd", rdfU + "8000", `\U00009fa5`, `\U0010FFFD`, "'", "<", ">", "#", ".", "@", "^", "_:", " ", "\x00", "http://x"}
+	`\U0001F600`, rdfU + "9fa5", rdfU + "AC00", rdfU + "fffd", rdfU + "8000", `\U00009fa5`, `\U0010FFFD`, `\UFFFFFFFF`, `\U80000000`, `\U00110000`, rdfU + "d800", "'", "<", ">", "#", ".", "@", "^", "_:", " ", "\x00", "http://x"}
 
 var rdfRawChars = []string{"a", "b", " ", "é", "😀", "\t", "\n", "\r", "\"", "\\", "\b", "\f", "'", "\u0080", " ", "\x00", "<", "#", "."}
 
@@ -277,11 +277,13 @@ func runNQuads(c *Ctx) *Violation {
 				if term.Value == "" {
 					continue
 				}
+				// (Parts is called for every term: a panic is a violation
+				// whatever the reference decoder thinks of the escapes)
+				gt, gq, gk, err := term.Parts()
 				wt, wq, wk, ok := rdfRefParts(term.Value)
 				if !ok {
 					continue
 				}
-				gt, gq, gk, err := term.Parts()
 				if err != nil || gt != wt || gq != wq || gk != wk {
 					return viol("nquads/Term/parts-of-parsed-term", "Term %q: Parts() = (%q, %q, %v, %v), the lexical form decodes to (%q, %q, %v)", term.Value, gt, gq, gk, err, wt, wq, wk)
 				}
@@ -838,7 +840,7 @@ func rdfDrawDataset(c *Ctx) ([]*rdf.Statement, string) {
 	var ds []*rdf.Statement
 	shape := "none"
 	if nb > 0 {
-		shape = []string{"random", "cycle", "star", "twins", "path", "undirected-cycle", "anchored", "cycle-with-hubs", "prism", "bipartite"}[t.Choose(simrt.KWorkload, 10)]
+		shape = []string{"random", "cycle", "star", "twins", "path", "undirected-cycle", "anchored", "cycle-with-hubs", "prism", "bipartite", "cycles"}[t.Choose(simrt.KWorkload, 11)]
 	}
 	p := rdfPreds[0]
 	switch shape {
@@ -869,6 +871,22 @@ func rdfDrawDataset(c *Ctx) ([]*rdf.Statement, string) {
 			for j := 0; j < b; j++ {
 				ds = append(ds, rdfStmt(bl(i), p, bl(a+j), ""))
 			}
+		}
+	case "cycles":
+		// a disjoint union of directed cycles of several lengths over one
+		// predicate: every blank node has the same first-degree hash and the
+		// same refinement hash, but nodes on cycles of different length are
+		// not automorphic, so the canonical form has to be chosen among
+		// genuinely different candidates (which one is the lowest depends on
+		// the hash values, hence the choice of predicates)
+		p = []string{"<ex:p>", "<ex:p0>", "<ex:p1>", "<ex:q>", "<ex:knows>", "<http://example.org/next>"}[t.Choose(simrt.KWorkload, 6)]
+		nb = 0
+		for k, m := 0, 2+t.Choose(simrt.KWorkload, 3); k < m && nb < 8; k++ {
+			l := 1 + t.Choose(simrt.KWorkload, 3)
+			for i := 0; i < l; i++ {
+				ds = append(ds, rdfStmt(bl(nb+i), p, bl(nb+(i+1)%l), ""))
+			}
+			nb += l
 		}
 	case "cycle":
 		for i := 0; i < nb; i++ {
@@ -1496,7 +1514,9 @@ func rdfRefUnescape(in string) (string, bool) {
 				return "", false
 			}
 			v, err := strconv.ParseUint(string(r[i+1:i+1+n]), 16, 32)
-			if err != nil {
+			if err != nil || v > 0x10FFFF || (v >= 0xD800 && v <= 0xDFFF) {
+				// not a code point: the grammar accepts the escape, what it
+				// decodes to is not stated anywhere - no opinion
 				return "", false
 			}
 			b.WriteRune(rune(v))
